@@ -12,14 +12,18 @@ impl Parseable for Size {
                 'G' => Size::GigaByte(num),
                 'T' => Size::TeraByte(num),
                 _ => unreachable!(),
-            }),
+            })
+            // A size that overflows once converted to bytes cannot be compared against
+            .verify(|size: &Size| size.checked_byte_size().is_some()),
             // Not very pretty, we check for a [0-9]+[a-z]+ and if met then fail with the proper
             // error. We do this once all the valid specs have been checked but before we attempt a
             // specless parse, doing so would end up leaving some junk in the input
             terminated(digit1, alpha1)
                 .and_then(cut_err(fail.context(expected("invalid_size_specifier")))),
             // Default. For Size this is Block
-            u64::parse.map(Size::Block),
+            u64::parse
+                .map(Size::Block)
+                .verify(|size: &Size| size.checked_byte_size().is_some()),
         ))
         .context(label("size"))
         .parse_next(input)
